@@ -654,6 +654,10 @@ func (run *CheckRun) Report(e *Engine, writeBaseline, verbose bool) int {
 		for _, r := range run.Results {
 			if r.Status == "discharged" {
 				raw[id] = append(raw[id], r.Name)
+			} else if base[r.Name] && r.Status != "known-finding" {
+				// an obligation of the alarm set that fails now stays in the alarm set: rewriting the baseline
+				// must never make a violation disappear
+				raw[id] = append(raw[id], r.Name)
 			}
 		}
 		if run.Tier != "thorough" {
